@@ -71,3 +71,49 @@ class Standalone:
 
     def packet(self, st: Store, kind: str) -> Ref:
         return self.lib.new_packet(st, kind)
+
+
+def term_atoms(v: Any) -> tuple[set[str], set[str]]:
+    """(atom names, operator/function names) occurring in an origin term"""
+    atoms: set[str] = set()
+    ops: set[str] = set()
+
+    def rec(t: Any) -> None:
+        if isinstance(t, Sym):
+            rec(t.t)
+        elif isinstance(t, Rec):
+            ops.add(t.cls)
+            for _, x in t.fields:
+                rec(x)
+        elif isinstance(t, tuple) and t:
+            tag = t[0]
+            if tag == "a":
+                atoms.add(str(t[1]))
+            elif tag == "app":
+                ops.add(str(t[1]).replace("call:", ""))
+                if str(t[1]).startswith("call:"):
+                    pass
+                for x in t[2]:
+                    rec(x)
+            elif tag == "attr":
+                rec(t[1])
+                ops.add("." + str(t[2]))
+            elif tag == "lin":
+                ops.add("lin")
+                for a, _c in t[1]:
+                    rec(a)
+            elif tag in ("item", "idx"):
+                rec(t[1])
+                ops.add(tag)
+            elif tag == "env":
+                ops.add("env:" + str(t[1]))
+                for x in t[2]:
+                    rec(x)
+            else:
+                for x in t:
+                    rec(x)
+        elif isinstance(t, str) and t.startswith("call:"):
+            pass
+
+    rec(v)
+    return atoms, ops
